@@ -171,6 +171,15 @@ where
                 // If handle is terminated, the stream is dead
                 Poll::Ready(None) => {
                     ready!(sink.as_mut().poll_flush(cx)).unwrap();
+
+                    // Requests already handed to the replier must reach the wire as well
+                    if server.is_some() {
+                        let si = &mut server.as_mut().as_pin_mut().unwrap().0;
+                        if let Err(e) = ready!(si.poll_flush_unpin(cx)) {
+                            error!("Could not flush replier sink: {e:?}");
+                        }
+                    }
+
                     stream.iter_mut().for_each(|(_, s)| s.shutdown_stream());
                     sink.iter_mut().for_each(|(_, s)| s.shutdown_sink());
 
